@@ -28,8 +28,8 @@ CLAIMED.update({
         "4/C14",
     ),
     "C15": (
-        "property-based round-trip testing: (a) generated target-language trees via an independent printer -> parse/print/parse identity; (b) every output of translate/simplify on generated programs is re-parsed and compared (tree, else meaning by evaluation)",
-        "Exploration: (a) as C14 for integer/general terms, formulas, theories, specifications (all roles/directions/names) and user guides with every accepted sort spelling; (b) the text printed for tau-star, natural, mu, gamma, completion and the 9 simplify variants on generated programs (predicate names such as notp, _r; variables named like the translators' fresh names) must be accepted, stable, and denote the same theory.",
+        "property-based round-trip testing: (a) generated target-language trees via an independent printer -> parse/print/parse identity; (b) every output of translate/simplify on generated programs, and of gamma/simplify on generated hand-written theories, is re-parsed and compared (tree, else meaning by evaluation)",
+        "Exploration: (a) as C14 for integer/general terms, formulas, theories, specifications (all roles/directions/names) and user guides with every accepted sort spelling; (b) the text printed for tau-star, natural, mu, gamma, completion and the 9 simplify variants on generated programs (predicate names such as notp, _r; variables named like the translators' fresh names) must be accepted, stable, and denote the same theory; the same for gamma and the 9 simplify variants applied to generated theories with leading-underscore names, keyword-prefixed names and one name at several sorts.",
         "Trusted: the checker's printer; for (b) the tree comparison (falls back to the checker's evaluator only when trees differ).",
         "4/C14-C15",
     ),
